@@ -24,6 +24,7 @@ type Val struct {
 	Iter *iterVal
 	G    *ghostRef
 	GSt  *State
+	Log  bool // derived from the call log: memory it refers to is read in the post-state
 }
 
 type closureVal struct {
@@ -966,6 +967,9 @@ func (fr *Frame) load(st *State, a *addr) Val {
 	if a.kind == aGlob && len(a.path) == 0 {
 		if c := e.prog.globalConst(a.glob); c != nil {
 			return e.constVal(c)
+		}
+		if a.glob.String() == "cosmossdk.io/collections.ErrNotFound" {
+			return Val{S: e.notFoundErr(), T: a.T}
 		}
 		if lit, ok := trustedGlobals[a.glob.String()]; ok {
 			e.note("approx", "global "+a.glob.String()+" taken as the constant "+lit+" (initialised once, never reassigned in layer)")
